@@ -67,6 +67,12 @@ LONG = [
 
 
 def run(ctx, log):
+    # enumerated families decided by Sem.v: how function / loop bodies end; names that live in several name spaces
+    extra_sem_families = []
+    extra_sem_families += progcheck.function_endings_family(ctx.quick)
+    progcheck.pipeline(ctx, extra_sem_families, log, budget=20000, label="endings-and-names", shard_size=120)
+    for s_ in extra_sem_families:
+        ctx.seen(("family", s_))
     # stray `stop` / `volgende` under every nesting of loops, functions, blocks and branches
     sj = progcheck.stray_jump_family(ctx.quick, ctx.rng)
     sjo = progcheck.pipeline(ctx, sj, log, budget=20000, label="stray-jumps", shard_size=120)
